@@ -14,6 +14,7 @@
 package main
 
 import (
+	"sync"
 	"context"
 	"fmt"
 	"sort"
@@ -34,6 +35,7 @@ const bufCap = 10
 type episode struct {
 	cancel    context.CancelFunc
 	clock     *clockwork.FakeClock
+	hook      *hookClock
 	genesis   time.Time
 	dl        core.Deadliner
 	dlFunc    core.DeadlineFunc
@@ -82,6 +84,39 @@ func realDeadlineFunc(genesis time.Time, slotMs int64, spe int) core.DeadlineFun
 	panic(fmt.Sprintf("beacon mock for the deadline function could not be created: %v", lastErr))
 }
 
+// hookClock is the clock handed to the deadliner: the fake clock, except that once armed the next
+// call of Now() - from whichever goroutine reads the clock first - returns the current instant and
+// then moves the clock on by the armed amount. It places a clock advance between a clock read of the
+// implementation and whatever it does next (an Add that straddles a deadline).
+type hookClock struct {
+	*clockwork.FakeClock
+	mu    sync.Mutex
+	armed time.Duration
+}
+
+func (h *hookClock) Now() time.Time {
+	t := h.FakeClock.Now()
+	h.mu.Lock()
+	d := h.armed
+	h.armed = 0
+	h.mu.Unlock()
+	if d > 0 {
+		h.FakeClock.Advance(d)
+	}
+	return t
+}
+
+func (h *hookClock) arm(d time.Duration) { h.mu.Lock(); h.armed = d; h.mu.Unlock() }
+
+// disarm reports the amount that is still armed (no clock read happened) and clears it.
+func (h *hookClock) disarm() time.Duration {
+	h.mu.Lock()
+	defer h.mu.Unlock()
+	d := h.armed
+	h.armed = 0
+	return d
+}
+
 func newEpisode(slotMs int64, spe int) *episode {
 	ctx, cancel := context.WithCancel(context.Background())
 	genesis := time.Date(2024, 1, 1, 0, 0, 0, 0, time.UTC)
@@ -89,7 +124,8 @@ func newEpisode(slotMs int64, spe int) *episode {
 	clock := clockwork.NewFakeClockAt(genesis)
 	e := &episode{cancel: cancel, clock: clock, genesis: genesis, dlFunc: f,
 		pending: map[int]int64{}, reported: map[int]bool{}, everSched: map[int]bool{}}
-	e.dl = core.NewDeadlinerVerif(ctx, f, clock)
+	e.hook = &hookClock{FakeClock: clock}
+	e.dl = core.NewDeadlinerVerif(ctx, f, e.hook)
 	e.sync()
 	return e
 }
@@ -290,6 +326,30 @@ func statusStr(s core.DeadlineStatus) string {
 }
 
 func (e *episode) doAdd(run *hx.Run, slot uint64, ty int) string {
+	st := e.addCore(run, slot, ty)
+	if st == "blocked" {
+		return st
+	}
+	return st + " " + e.observe(run, e.dueWithin(0))
+}
+
+// doSAdd is an Add during which the clock moves on by k: the first clock read after the call
+// started sees the old instant, everything after it the new one.
+func (e *episode) doSAdd(run *hx.Run, slot uint64, ty int, k int64) string {
+	e.hook.arm(time.Duration(k))
+	st := e.addCore(run, slot, ty)
+	if rest := e.hook.disarm(); rest > 0 {
+		e.clock.Advance(rest) // nobody read the clock (exempt duty): the advance follows the call
+		run.Count("sadd:clock_not_read")
+	}
+	if st == "blocked" {
+		return st
+	}
+	run.Count("sadd")
+	return st + " " + e.observe(run, e.dueWithin(0))
+}
+
+func (e *episode) addCore(run *hx.Run, slot uint64, ty int) string {
 	d := core.Duty{Slot: slot, Type: core.DutyType(ty)}
 	id := dutyID(d)
 	dlm := e.deadlineMs(d)
@@ -336,7 +396,7 @@ func (e *episode) doAdd(run *hx.Run, slot uint64, ty int) string {
 	if dlm == now {
 		run.Count("add:at_deadline_instant")
 	}
-	return statusStr(st) + " " + e.observe(run, e.dueWithin(0))
+	return statusStr(st)
 }
 
 func (e *episode) doAdv(run *hx.Run, ms int64) string {
@@ -369,6 +429,11 @@ func main() {
 			slot, _ := strconv.ParseUint(f[1], 10, 64)
 			ty, _ := strconv.Atoi(f[2])
 			run.Op(op, ep.doAdd(run, slot, ty))
+		case "sadd":
+			slot, _ := strconv.ParseUint(f[1], 10, 64)
+			ty, _ := strconv.Atoi(f[2])
+			k, _ := strconv.ParseInt(f[3], 10, 64)
+			run.Op(op, ep.doSAdd(run, slot, ty, k))
 		case "adv":
 			ms, _ := strconv.ParseInt(f[1], 10, 64)
 			run.Op(op, ep.doAdv(run, ms))
@@ -474,6 +539,25 @@ func main() {
 						break
 					}
 				}
+			case c < 68 && c >= 62 && len(ep.pending) > 0: // an Add during which the clock crosses a deadline
+				// (mostly the re-registration of a pending duty straddling its own deadline: reported once)
+				var ids []int
+				for id := range ep.pending {
+					ids = append(ids, id)
+				}
+				sort.Ints(ids)
+				id := ids[rng.Intn(len(ids))]
+				dlm := ep.pending[id]
+				k := dlm - ep.nowMs() + int64(rng.Intn(3))
+				tgt := core.Duty{Slot: uint64(id / 16), Type: core.DutyType(id % 16)}
+				if rng.Chance(1, 4) && len(added) > 0 { // another duty is (re-)registered while this one expires
+					tgt = added[rng.Intn(len(added))]
+				}
+				if k <= 0 || ep.dueWithin(k) > bufCap {
+					break
+				}
+				added = append(added, tgt)
+				exec(fmt.Sprintf("sadd %d %d %d", tgt.Slot, int(tgt.Type), k))
 			case c < 62 && len(added) > 0: // repeat an earlier registration (pending, reported or refused)
 				d := added[rng.Intn(len(added))]
 				exec(fmt.Sprintf("add %d %d", d.Slot, int(d.Type)))
